@@ -13,7 +13,7 @@ JsonTags == {"a", "b", "", "id", "~", "a,omitempty", "-"}   \* "~": json:"" (the
 ApiTags == {"", "attr", "rel", "rel,", "rel,tt", "rel,tt,inv", "rel,a,b,c", "other", "rel,,inv", "attr,omitempty", "related", "relation,tt",
             "rel, tt, inv", " rel,tt", "attr "}   \* white space is part of what a tag says: " rel" is not rel, " tt" is a name
 IdVariants == {"ok", "noapi", "absent", "int", "jsonother", "nojson", "last", "named",
-               "tname-attr", "tname-rel", "tname-rel2", "tname-rel4", "named-attr"}
+               "tname-attr", "tname-rel", "tname-rel2", "tname-rel4", "named-attr", "embedded"}
 F(g, j, a) == [gotype |-> g, json |-> j, api |-> a]
 FieldSpecs == { F(g, j, a) : g \in GoTypes, j \in JsonTags, a \in ApiTags }
 
